@@ -116,6 +116,7 @@ def run(ctx, rep):
         n4(ctx, rep, T, be, struct, fns, prefixed)
     rep.section(n3, ctx, rep)
     rep.section(n6, ctx, rep)
+    rep.section(n7, ctx, rep)
     rep.section(n5, ctx, rep, T)
     rep.extra['evaluations'] = n_sites
 
@@ -476,6 +477,37 @@ def n6(ctx, rep):
             else:
                 okc = ga in ('[]', '&[]') and '.consts)' in ta
             rep.check(okc, 'N6', key + ':generic-context', f'generic context {ga[-50:]}', f"{fn_} passes `{ga[-60:]}` as generic context for the types `{ta[-60:]}` — expected the generic_types of the same item (an empty list only for constants): generic parameters of that item are rewritten like type references", csite)
+
+
+def n7(ctx, rep):
+    """N7: the rename table (original name → {crate → serde name}) accumulates per original name: two crates may each define a
+    renamed type under the same Rust identifier, and references in both must be rewritten.  On the resolved program: every entry of
+    the outer map is made through the `entry` API; nothing builds or overwrites the outer map wholesale (`collect` / `from_iter` /
+    `insert` / `extend` into a map of maps replace the inner map of an existing key)."""
+    from .. import cg
+    prog = cg.Program(ctx.mirq('all'))
+    roots = [k for k in prog.find('collect_serde_renames', crate='typeshare_core') if prog.bodies[k]['kind'] == 'fn']
+    if len(roots) != 1:
+        raise core.Incomplete('N7: collect_serde_renames not found in MIR')
+    reg = [k for k in prog.region([roots[0]], stop=()) if prog.bodies[k]['file'].endswith('reconcile.rs')]
+    outer = re.compile(r'HashMap<std::string::String, std::collections::HashMap<')
+    entries, wholesale = [], []
+    for k in reg:
+        b = prog.bodies[k]
+        for c in b['calls']:
+            self_ty = (c.get('arg_tys') or [''])[0]
+            dest_ty = b['locals'].get(str(c.get('dest') or '').split(' ')[0], '')
+            name = c['callee'].split('::')[-1]
+            if name == 'entry' and outer.search(self_ty):
+                entries.append(c)
+            elif name in ('insert', 'extend', 'extend_one') and outer.search(self_ty):
+                wholesale.append((b, c))
+            elif name in ('collect', 'from_iter', 'from') and outer.search(dest_ty) and not outer.search(self_ty):
+                wholesale.append((b, c))
+    site = {'file': prog.bodies[roots[0]]['file'], 'line': prog.bodies[roots[0]]['line']}
+    ok = bool(entries) and not wholesale
+    w0 = wholesale[0] if wholesale else None
+    rep.check(ok, 'N7', 'rename-table:accumulates-per-name', f'{len(entries)} entry() site(s), no wholesale construction of the outer map', ("collect_serde_renames builds the rename table with `" + (re.sub(r'\s+', '', w0[1]['snippet'])[:60] if w0 else '?') + "` — a map of maps made this way keeps ONE inner map per original name, so when two crates each rename a type with the same Rust identifier only one crate's rename survives: the other crate's references keep the original name while its definition is emitted under the serde name") if wholesale else 'collect_serde_renames never goes through the entry API of the rename table: entries of the same original name from different crates are not merged', {'file': w0[1]['file'], 'line': w0[1]['line']} if w0 else site)
 
 
 def n3(ctx, rep):
